@@ -13,7 +13,7 @@ from experimaestro.xpmutils import DirectoryContext
 
 from xvschema import cfg as S
 
-CLS = {"K": S.K, "K2": S.K2, "K2Old": S.K2Old, "V": S.V, "LW": S.LW, "T": S.T, "T0": S.T0, "T1": S.T1, "G": S.G,
+CLS = {"K": S.K, "K2": S.K2, "K2Old": S.K2Old, "K2Older": S.K2Older, "V": S.V, "LW": S.LW, "T": S.T, "T0": S.T0, "T1": S.T1, "G": S.G,
        "PX": S.PX, "QX": S.QX, "N": S.N, "DH": S.DH}
 
 
@@ -172,7 +172,7 @@ def rand_graph(rng, n=3, tasks=True):
     ids = [str(i + 1) for i in range(n)]
     g = {}
     for i in ids:
-        cls = rng.choice(["K", "K", "K", "K2", "K2Old", "V", "G", "G", "LW", "T0", "PX", "QX", "N", "DH"] if tasks else ["K", "K", "K2", "V", "G", "PX", "QX", "N"])
+        cls = rng.choice(["K", "K", "K", "K2", "K2Old", "K2Older", "V", "G", "G", "LW", "T0", "PX", "QX", "N", "DH"] if tasks else ["K", "K", "K2", "V", "G", "PX", "QX", "N"])
         vals = {}
 
         def ref():
@@ -191,7 +191,7 @@ def rand_graph(rng, n=3, tasks=True):
             vals["o"] = rng.choice([["int", 9], ["int", 9], ["none"], ["int", 1]])
             vals["s"] = rng.choice([["none"], ["str", rng.choice(STRS)]])
             vals["v"] = ["int", 3]
-        elif cls in ("K2", "K2Old"):
+        elif cls in ("K2", "K2Old", "K2Older"):
             vals["a"] = ["int", rng.choice(INTS)]
             vals["c"] = ref() if rng.random() < 0.5 else ["none"]
             vals["v"] = ["int", 4]
